@@ -636,6 +636,45 @@ theorem c15_injected_good (cfg : Cfg) (req : Req) (hc : cfg.WF) (hr : req.WF) :
     (∀ c e, (inject cfg req).2 = .err c e → (inject cfg req).1.length < req.msgs.length) :=
   injectLoop_good cfg req hc hr.1 hr.2.1 req.msgs hr.2.2
 
+private theorem injectLoop_ok_exact (cfg : Cfg) (req : Req) :
+    ∀ (ms : List Msg) (chan out : List Vaa), injectLoop cfg req ms chan = (out, .ok) →
+      ∃ vs, out = chan ++ vs ∧ ms.map (injectOne cfg req) = vs.map .ok := by
+  intro ms
+  induction ms with
+  | nil =>
+    intro chan out h
+    simp [injectLoop] at h
+    exact ⟨[], by simp [h], rfl⟩
+  | cons m ms ih =>
+    intro chan out h
+    unfold injectLoop at h
+    cases hm : injectOne cfg req m with
+    | ok v =>
+      rw [hm] at h
+      obtain ⟨vs, ho, hf⟩ := ih _ _ h
+      exact ⟨v :: vs, by simp [ho], by simp [hm, hf]⟩
+    | error r =>
+      rw [hm] at h
+      simp only [Prod.mk.injEq] at h
+      obtain ⟨_, hr⟩ := h
+      subst hr
+      -- a rejected message ends the request with that very result, which is never `ok`
+      unfold injectOne at hm
+      split at hm
+      · cases hm
+      · split at hm <;> cases hm
+
+/-- **What an accepted request hands to the processor.** If `InjectGovernanceVAA` returns success, the VAAs it pushed on the
+injection channel are - in message order, one per message, none twice, none missing - exactly the VAAs of its messages (the ones
+whose digests it returns). -/
+theorem c15_accepted_handover_exact (cfg : Cfg) (req : Req) (h : (inject cfg req).2 = .ok) :
+    req.msgs.map (injectOne cfg req) = (inject cfg req).1.map .ok := by
+  have hp : injectLoop cfg req req.msgs [] = ((inject cfg req).1, .ok) := by
+    rw [← h]; rfl
+  obtain ⟨vs, ho, hf⟩ := injectLoop_ok_exact cfg req req.msgs [] _ hp
+  rw [ho]
+  simpa using hf
+
 /-- Every request is either rejected with a status or accepted; nothing else can happen. -/
 theorem c15_accept_or_reject (cfg : Cfg) (req : Req) :
     (inject cfg req).2 = .ok ∨ ∃ c e, (inject cfg req).2 = .err c e := by
@@ -659,5 +698,7 @@ def sampleReq : Req :=
     msgs := [⟨2 ^ 64 - 1, 7, 255, .updateMessageFee sampleFee⟩, ⟨5, 2 ^ 32 - 1, 65535, .minConsistency 255⟩] }
 example : sampleCfg.WF ∧ (inject sampleCfg sampleReq).2 = .ok ∧ (inject sampleCfg sampleReq).1.length = 2 := by
   refine ⟨by decide, by decide, by decide⟩
+example : sampleReq.msgs.map (injectOne sampleCfg sampleReq) = (inject sampleCfg sampleReq).1.map .ok :=
+  c15_accepted_handover_exact sampleCfg sampleReq (by decide)
 
 end Whv.C15
